@@ -140,6 +140,17 @@ func visitsStr(vs []visitRec) string {
 	return strings.Join(parts, ";")
 }
 
+// retainedChanged: the nodes handed to the callback, read again after the walk, must say what they said then.
+func retainedChanged(kept []*gtree.WalkerNode, vs []visitRec) int {
+	n := 0
+	for i, wn := range kept {
+		if i < len(vs) && recVisit(wn) != vs[i] {
+			n++
+		}
+	}
+	return n
+}
+
 func recVisit(wn *gtree.WalkerNode) visitRec {
 	return visitRec{wn.Name(), wn.Branch(), wn.Row(), wn.Path(), wn.Level(), wn.HasChild()}
 }
@@ -153,7 +164,7 @@ func handle(toks []string) string {
 			opts = append(opts, gtree.WithMassive(context.Background()))
 		}
 		var w bytes.Buffer
-		err := gtree.OutputFromMarkdown(&w, strings.NewReader(unhex(toks[9])), opts...)
+		err := gtree.OutputFromMarkdown(&w, mkReader(unhex(toks[9])), opts...)
 		return classify(err, -1) + " " + chunksOf(toks[1], toks[2] == "1", w.Bytes())
 	case "walk", "mwalk":
 		// walk LD LI MD MI FAIL INPUT
@@ -168,17 +179,22 @@ func handle(toks []string) string {
 		var vs []visitRec
 		i := 0
 		var vmu sync.Mutex // with the massive option the callback is invoked from several workers
+		var keptNodes []*gtree.WalkerNode
 		cb := func(wn *gtree.WalkerNode) error {
 			vmu.Lock()
 			defer vmu.Unlock()
 			vs = append(vs, recVisit(wn))
+			keptNodes = append(keptNodes, wn)
 			i++
 			if i-1 == fail {
 				return cbErr
 			}
 			return nil
 		}
-		err := gtree.WalkFromMarkdown(strings.NewReader(unhex(toks[6])), cb, opts...)
+		err := gtree.WalkFromMarkdown(mkReader(unhex(toks[6])), cb, opts...)
+		if n := retainedChanged(keptNodes, vs); n > 0 {
+			return fmt.Sprintf("retained_changed:%d %s", n, visitsStr(vs))
+		}
 		return classify(err, fail) + " " + visitsStr(vs)
 	case "parse":
 		p := md.NewParser()
